@@ -23,6 +23,7 @@ import (
 	crypto "github.com/dappledger/AnnChain/gemmill/go-crypto"
 	wire "github.com/dappledger/AnnChain/gemmill/go-wire"
 	dbm "github.com/dappledger/AnnChain/gemmill/modules/go-db"
+	events "github.com/dappledger/AnnChain/gemmill/modules/go-events"
 	sm "github.com/dappledger/AnnChain/gemmill/state"
 	"github.com/dappledger/AnnChain/gemmill/types"
 
@@ -149,6 +150,77 @@ func reloadIntermediate(vs *types.ValidatorSet) (out *types.ValidatorSet, err er
 	return ld.Validators, nil
 }
 
+// ---- the state machine's own step: State.ExecBlock on replicas that committed in different rounds
+
+type nopExec struct{}
+
+func (nopExec) BeginBlock(*types.Block, events.Fireable, *types.PartSetHeader) error { return nil }
+func (nopExec) ExecBlock(*types.Block, events.Fireable, *types.ExecuteResult) error  { return nil }
+func (nopExec) EndBlock(*types.Block, events.Fireable, *types.PartSetHeader, []*types.ValidatorAttr, *types.ValidatorSet) error {
+	return nil
+}
+
+type nopVerifier struct{}
+
+func (nopVerifier) ValidateBlock(*types.Block) error { return nil }
+
+// checkExecRounds: replicas apply the same two blocks through the real State.ExecBlock; the round
+// argument is whatever their caller has at hand (the replica's local round when it finalizes, -1
+// from fast sync, 0 from crash recovery): the validator set of the next height must not depend on it.
+func checkExecRounds(powers []int64) {
+	gen := &types.GenesisDoc{ChainID: "c16", AppHash: []byte{}}
+	for i, p := range powers {
+		gen.Validators = append(gen.Validators, types.GenesisValidator{PubKey: pub(i), Amount: p, IsCA: true})
+	}
+	evsw := types.NewEventSwitch()
+	evsw.Start()
+	defer evsw.Stop()
+	types.AddListenerForEvent(evsw, "c16", types.EventStringHookExecute(), func(ed types.TMEventData) {
+		ed.(types.EventDataHookExecute).ResCh <- types.ExecuteResult{}
+	})
+	var ref snap
+	for ri, round := range []int64{0, 1, 2, 7, -1} {
+		st := sm.MakeGenesisState(dbm.NewMemDB(), gen)
+		st.SetBlockExecutable(nopExec{})
+		st.SetBlockVerifier(nopVerifier{})
+		var got snap
+		failed := ""
+		func() {
+			defer func() {
+				if r := recover(); r != nil {
+					failed = fmt.Sprint(r)
+				}
+			}()
+			for h := int64(1); h <= 2; h++ {
+				blk, parts := types.MakeBlock(h, "c16", []types.Tx{types.Tx(fmt.Sprintf("tx-%d", h))}, nil, &types.Commit{}, st.Validators.Proposer().Address, st.LastBlockID, st.Validators.Hash(), st.AppHash, st.ReceiptsHash, 4096)
+				r := round
+				if h == 1 {
+					r = 0
+				}
+				if err := st.ExecBlock(evsw, blk, parts.Header(), r); err != nil {
+					failed = err.Error()
+					return
+				}
+			}
+			got = snapshot(st.Validators)
+		}()
+		if failed != "" {
+			run.Count("exec_rounds_not_executed", 1)
+			return
+		}
+		if ri == 0 {
+			ref = got
+			continue
+		}
+		run.Count("exec_rounds_replicas_compared", 1)
+		if got.Proposer != ref.Proposer || !sameAccums(got.Accums, ref.Accums) {
+			run.Violation("next-validator-set-depends-on-the-round-a-replica-committed-in", fmt.Sprintf("powers %v: a replica whose caller passed round %d to State.ExecBlock for block 2 holds proposer %s accums %v afterwards, the one that passed 0 holds %s %v", powers, round, got.Proposer[:8], got.Accums, ref.Proposer[:8], ref.Accums),
+				map[string]interface{}{"powers": powers, "round": round, "replica": got, "reference": ref})
+			return
+		}
+	}
+}
+
 func reloadJSON(vs *types.ValidatorSet) (*types.ValidatorSet, error) {
 	bz := wire.JSONBytes(vs)
 	var err error
@@ -159,6 +231,7 @@ func reloadJSON(vs *types.ValidatorSet) (*types.ValidatorSet, error) {
 // checkSet runs (a1)-(a3),(b) for one power vector. j0max: how many initial
 // single increments to explore as starting states; kmax: batch sizes.
 func checkSet(powers []int64, j0max, kmax int64, label string) {
+	checkExecRounds(powers)
 	T := total(powers)
 	run.Eval()
 	nontrivial := len(powers) >= 2
